@@ -4,7 +4,7 @@
 use std::panic;
 
 use crate::rng::Rng;
-use rspack_sources::{MapOptions, OriginalSource, ReplaceSource, Source, SourceMap, SourceMapSource, WithoutOriginalOptions};
+use rspack_sources::{MapOptions, OriginalSource, Rope, ReplaceSource, Source, SourceMap, SourceMapSource, WithoutOriginalOptions};
 
 fn run(text: &str, mappings: &str, ops: &[(u32, u32, String)], with_content: bool) -> Result<(), String> {
   let (text, mappings, ops) = (text.to_string(), mappings.to_string(), ops.to_vec());
@@ -102,4 +102,49 @@ pub fn search_tokens(args: &[String]) -> i32 {
 pub fn replay_tokens(w: &str) -> i32 {
   panic::set_hook(Box::new(|_| {}));
   match run_tokens(&unhex(w)) { Err(p) => { println!("REPRODUCED panic: {p}"); 1 } Ok(()) => { println!("NOT-REPRODUCED"); 0 } }
+}
+
+// ---- Rope slicing entry points with extreme range bounds: any panic (get_byte_slice must answer None) ----
+fn run_rope_bounds(pieces: &[&'static str], case: usize) -> Result<(), String> {
+  use std::ops::Bound::*;
+  let pieces = pieces.to_vec();
+  panic::catch_unwind(move || {
+    let mut r = Rope::new();
+    for p in &pieces { r.add(p); }
+    let m = usize::MAX;
+    let _ = match case {
+      0 => r.get_byte_slice(..=m),
+      1 => r.get_byte_slice(0..=m),
+      2 => r.get_byte_slice((Excluded(m), Unbounded)),
+      3 => r.get_byte_slice((Excluded(m), Included(m))),
+      4 => r.get_byte_slice(m..),
+      5 => r.get_byte_slice(..m),
+      6 => r.get_byte_slice((Excluded(0), Included(0))),
+      _ => r.get_byte_slice(1..=m - 1),
+    };
+  }).map_err(|e| e.downcast_ref::<String>().cloned().or_else(|| e.downcast_ref::<&str>().map(|s| s.to_string())).unwrap_or_default())
+}
+pub fn search_rope_bounds(_args: &[String]) -> i32 {
+  panic::set_hook(Box::new(|_| {}));
+  let ropes: [&[&'static str]; 3] = [&["abc"], &["ab", "c\u{e9}"], &[]];
+  let mut tried = 0;
+  for (ri, pieces) in ropes.iter().enumerate() {
+    for case in 0..8 {
+      tried += 1;
+      if let Err(p) = run_rope_bounds(pieces, case) {
+        println!("WITNESS kind=ropebounds input={ri}:{case}");
+        println!("DETAIL Rope built from {pieces:?}: get_byte_slice with range case #{case} (bounds at usize::MAX) panicked: {p}");
+        println!("TRIED {tried}");
+        return 1;
+      }
+    }
+  }
+  println!("NO-WITNESS tried={tried}");
+  0
+}
+pub fn replay_rope_bounds(w: &str) -> i32 {
+  panic::set_hook(Box::new(|_| {}));
+  let ropes: [&[&'static str]; 3] = [&["abc"], &["ab", "c\u{e9}"], &[]];
+  let f: Vec<usize> = w.split(':').map(|x| x.parse().unwrap()).collect();
+  match run_rope_bounds(ropes[f[0]], f[1]) { Err(p) => { println!("REPRODUCED panic: {p}"); 1 } Ok(()) => { println!("NOT-REPRODUCED"); 0 } }
 }
